@@ -452,7 +452,7 @@ def t2t_cases(rng, n: int):
 
 # ---------------------------------------------------------------------------------------------
 def run_all(ctx: common.Ctx):
-    n_docs = ctx.scale(45, 600)
+    n_docs = ctx.scale(120, 800)
     n_ops = 8 if ctx.quick else 14
     cases, metas, layouts, lay_meta = [], [], [], []
     parsed = 0
@@ -490,8 +490,23 @@ def run_all(ctx: common.Ctx):
             metas.append((text, ops))
         layouts.append(run.layout_case)
         lay_meta.append(text)
+    # a model without a store (a free token): getters give nothing, setters refuse
+    _, _, _, Newline, Whitespace, _ = impl()
+    free = Whitespace.from_default()
+    ok = free.raw_spacing_before == () and free.raw_spacing_after == () and free.spacing_before == '' \
+        and free.spacing_after == ''
+    for attr, val in (('spacing_before', ' '), ('spacing_after', '\n'), ('raw_spacing_before', ()),
+                      ('raw_spacing_after', ())):
+        try:
+            setattr(free, attr, val)
+            ok = False
+        except ValueError:
+            pass
+    if not ok:
+        ctx.monitor_failure('C17:no-store', 'accessors of a free token: getters must give nothing and setters raise '
+                            'ValueError', {'free_token': True})
     # correspondence: accessors
-    bad = ctx.run_coq_cases('spacing', PREAMBLE, 'scase', 'check_case', cases, chunk=30)
+    bad = ctx.run_coq_cases('spacing', PREAMBLE, 'scase', 'check_case', cases, chunk=60)
     ctx.count('traces_validated_against_impl', len(cases) - len(bad))
     for i in bad[:3]:
         text, ops = metas[i]
